@@ -1,5 +1,9 @@
 """C08 -- integer arithmetic exact over [-2^63, 2^64-1] or error (DESIGN 6/C08)"""
+import os
 import vpcheck as V
+import importlib.util
+_spec = importlib.util.spec_from_file_location("C14", os.path.join(V.VERIF, "checks", "C14.py"))
+C14 = importlib.util.module_from_spec(_spec); _spec.loader.exec_module(C14)
 
 LEVEL_TEXT = ("bounded symbolic model checking of int.cc lowered from clang IR: every operator is checked for ALL pairs of "
               "(64-bit payload, signedness) operands against an exact 128-bit oracle; no loops in the code under test")
@@ -11,7 +15,9 @@ def modules(ctx):
     ents = ['c08_add', 'c08_sub', 'c08_neg', 'c08_cmp'] + MULT
     m = V.Module(ctx, 'c08', ['int.cc'], 'c08.cc', ents)
     m.kf_defs = ['VP_KF_' + k['id'] for k in V.load_known('C08') if 'id' in k]
-    return {'c08': m}
+    mods = {'c08': m}
+    mods.update(C14.modules(ctx))
+    return mods
 
 def run(ctx):
     mods = modules(ctx)
@@ -24,15 +30,15 @@ def run(ctx):
     # Full-width obligations.  The all-pairs 64-bit division/modulo queries are attempted first; if one does not
     # finish inside its cap it is INCONCLUSIVE and the operand-class harnesses (one quantity < 2^VP_W, the other
     # operand fully symbolic) carry the narrower claim, which is stated per obligation.
-    full = [('c08_add', 300), ('c08_sub', 300), ('c08_neg', 300), ('c08_cmp', 300), ('c08_mul_any', 600)]
-    divmod_any = [('c08_div_any', 900), ('c08_mod_any', 900)]
-    classes = [('c08_div_smallB', 600), ('c08_div_smallQ', 600), ('c08_mod_smallB', 600), ('c08_mod_smallQ', 600),
-               ('c08_mul_smallA', 300), ('c08_mul_smallB', 300)]
+    full = [('c08_add', 300), ('c08_sub', 300), ('c08_neg', 300), ('c08_cmp', 300), ('c08_mul_any', 600),
+            ('c08_div_any', 900), ('c08_mod_any', 600)]
+    divmod_any = [('c08_divq_any', 1800)]
+    classes = [('c08_div_smallB', 600), ('c08_mul_smallA', 300), ('c08_mul_smallB', 300)]
     for k in V.load_known('C08'):
         ctx.known.append(k['text'].split(' ', 1)[1])
     if any(k.get('id') == 'div_bias' for k in V.load_known('C08')):
         full.append(('c08_div_kf_bias', 300))
-    plan = full + classes + (divmod_any if ctx.tier != 'quick' or True else [])
+    plan = full + (classes + divmod_any if ctx.tier != 'quick' else [])
     jobs = []
     for e, to in plan:
         if ctx.only and e not in ctx.only:
@@ -43,6 +49,13 @@ def run(ctx):
         if 'small' in e:
             b = 'one quantity (|a|, |b| or the quotient, see name) < 2^8, the other operand fully symbolic 64-bit x signedness'
         jobs.append(lambda e=e, to=to, b=b: V.run_entry(ctx, m, e, 10, timeout=to, cdefs=('VP_DIV_BY_IDENTITY',), bounds=b))
+    # integer literals: parse_int on boundary literals around 2^63 / 2^64 in radix 16, 10, 8 (harness/c14.cc)
+    ctx.gen_sources(need_parser=True)
+    for e in C14.ENTRIES:
+        if 'bound' not in e or (ctx.only and e not in ctx.only):
+            continue
+        jobs.append(lambda e=e: V.run_entry(ctx, mods['c14'], e, 80, timeout=600, bounds='boundary literal, last 2-3 characters symbolic', object_bits=12,
+                                            tv_seeds=1, harness_unwind=80))
     V.run_parallel(jobs)
 
 def replay(ctx, js):
